@@ -22,7 +22,7 @@ ASSUMPTIONS = ['reactive populations are only compared when the total reactive d
                'the probability-vector clause for reactive populations is asserted only when sum(pi q+ q-) > 0; '
                'when every committor is 0 or 1 the reactive density is identically zero and the quantity is undefined (0/0)']
 GUARDS = {'history': 500, 'wide_range_weights': 100, 'intermediate_flux': 500, 'undefined_density': 100, 'sparse': 500, 'dense_layouts': 200, 'pops_computed': 500, 'multi': 500}
-NSH = {'quick': 48, 'thorough': 192}
+NSH = {'quick': 48, 'thorough': 1536}
 CONTAINERS = ('ndarray', 'ndarrayF', 'ndarrayT', 'ndarrayS', 'csr', 'csc', 'coo', 'lil')
 
 
